@@ -87,6 +87,9 @@ func (y *S) Fires(t Target, src string, mk func(group string) func(ctx *linter.C
 	if err != nil {
 		return false
 	}
+	if y.LastPanic {
+		return true // a well-typed instance of the pattern on which the group's checker crashes is the input we look for
+	}
 	frags := MessageShape(t.Rule)
 	for _, w := range ws {
 		if MatchesShape(w.Text, frags) {
